@@ -224,31 +224,59 @@ def run(pid, tier, seed, args, t0):
             if by_name[n][0][0].fr is not None:
                 by_fn.setdefault(by_name[n][0][0].fr.qual, set()).add(n)
         known_names = set(k.get('obligation') for k in opens)
-        budget = 420 if tier == 'quick' else 1500      # wall seconds of counter-model search per function
+        budget = 240 if tier == 'quick' else 1200      # wall seconds of counter-model search per function
+        t_all = time.time()
+        budget_all = 420 if tier == 'quick' else 2400  # ... and per check
         for q, names in sorted(by_fn.items()):
             t_fn = time.time()
             found_new = False
             for K in (2, 3):
                 todo = [n for n in names if n not in refuted]
-                if not todo or found_new or time.time() - t_fn > budget:
+                if not todo or found_new or time.time() - t_fn > budget or time.time() - t_all > budget_all:
                     break
-                frb = eng.verify_function(q, bound=K)
+                # path by path (no state merging): one conjunctive query per path is far easier to satisfy than the merged
+                # formula; fall back to the merged form when the paths are too many
+                from pyvc import state as _state
+                _state.NO_MERGE[:] = [True, time.time() + (90 if tier == 'quick' else 300)]        # (flag, deadline of the unmerged exploration)
+                try:
+                    frb = eng.verify_function(q, bound=K)
+                finally:
+                    _state.NO_MERGE[:] = [False]
+                if frb.error or len(frb.obligations) > 6000:
+                    frb = eng.verify_function(q, bound=K)
                 if frb.error:
                     break
                 # refutation mode unrolls loops, so loop obligations do not exist there: an open inv-* / hint /
                 # frame obligation is refuted through any exit obligation of the same function that has a
                 # replayable counter-model
                 loopish = [n for n in todo if ('/inv-' in n or '/frame' in n or '/pre[' in n or '/fieldtype' in n)]
-                cands = [o for o in frb.obligations if not o.info.get('trivial')]
-                # known findings first (cheap to confirm), then the open property clauses, then the rest
-                cands.sort(key=lambda o: (o.name not in known_names, o.name not in todo, o.kind not in ('post', 'raises')))
-                for o in cands:
-                    if found_new or time.time() - t_fn > budget:
+                cands = []
+                for o in frb.obligations:
+                    if o.info.get('trivial'):
+                        continue
+                    direct = o.name in todo
+                    indirect = bool(loopish) and o.kind in ('post', 'raises')
+                    if direct or indirect:
+                        cands.append(o)
+                # screen all path instances quickly and in parallel; only satisfiable ones go on to model extraction + replay
+                if len(cands) > 400:
+                    cands = [o for o in cands if o.name in todo][:400] or cands[:400]
+                screen = solve.discharge(cands, 'screen', procs=16, threads=True) if cands else []
+                order = sorted(range(len(cands)), key=lambda i: ({'sat': 0, 'unknown': 1, 'unsat': 2}[screen[i]['verdict']],
+                                                                 cands[i].name not in known_names, cands[i].name not in todo,
+                                                                 cands[i].kind not in ('post', 'raises')))
+                tried = {}
+                for i in order:
+                    o = cands[i]
+                    if screen[i]['verdict'] == 'unsat' or found_new or time.time() - t_fn > budget:
                         break       # one replayed violation per function decides the check; the others stay listed as open
-                    direct = o.name in todo and o.name not in refuted
-                    indirect = loopish and o.kind in ('post', 'raises') and not all(n in refuted for n in loopish)
+                    if tried.get(o.name, 0) >= 3:
+                        continue    # at most three path instances per obligation name
+                    direct = o.name in todo and (o.name not in refuted or not refuted[o.name].get('replayed'))
+                    indirect = bool(loopish) and o.kind in ('post', 'raises') and not all(n in refuted for n in loopish)
                     if not (direct or indirect):
                         continue
+                    tried[o.name] = tried.get(o.name, 0) + 1
                     rr = RP.refute_and_replay(o, frb, K, pid)
                     if rr is None:
                         continue
